@@ -3,7 +3,7 @@ specification that rejected it; for engines with a reconstruction recipe the har
 import json, os, sys
 import vlib
 
-TRACE_MODULE = {"cal": "Trace_Calendar", "named": "Trace_NamedCal", "fx": "Trace_FX", "num": "Trace_NumVM", "curve": "Trace_Curve", "gauss": "Trace_Gauss", "spline": "Trace_BSpline"}
+TRACE_MODULE = {"cal": "Trace_Calendar", "named": "Trace_NamedCal", "fx": "Trace_FX", "num": "Trace_NumVM", "curve": "Trace_Curve", "gauss": "Trace_Gauss", "spline": "Trace_BSpline", "persist": "Trace_Persist"}
 
 
 def run(path):
